@@ -144,14 +144,17 @@ def concrete(lists, author, keys):
             shutil.rmtree(d, ignore_errors=True)
     except Exception as e:          # noqa
         return 'error %r' % e, None
-    acc, table = accessors(settings['pr_author_options'], author, keys, False)
-    return 'ok', {k: bool(v) for k, v in acc.items()}
+    table = settings['pr_author_options']
+    acc, _ = accessors(table, author, keys, False)
+    return 'ok', ({k: bool(v) for k, v in acc.items()},
+                  {u: sorted(k for k, v in table.get(u, {}).items() if v) for u, _n in USERS})
 
 
 def expected(lists, author, keys):
     if any(e == BOGUS for l in lists.values() for e in l):
         return 'refused', None
-    return 'ok', {k: k in lists.get(author, []) for k in keys}
+    return 'ok', ({k: k in lists.get(author, []) for k in keys},
+                  {u: sorted(set(lists.get(u, []))) for u, _n in USERS})
 
 
 def _explore(arg):
